@@ -141,8 +141,13 @@ def copy_dicts(value):
 def merge_variable_updates(current, update):
     """Combine two updates for the same node: updates of one variable
     that name their value or updater are kept whole, side by side."""
-    if current and (
-            is_variable_update(current) or is_variable_update(update)):
+    if current is None or (isinstance(current, dict) and not current):
+        return deep_merge_multi_update(current, update)
+    if (
+            not isinstance(current, dict)
+            or is_variable_update(current) or is_variable_update(update)):
+        # (a plain value - also a falsy one - is an update for one
+        # variable too)
         if isinstance(current, dict) and MULTI_UPDATE_KEY in current:
             current[MULTI_UPDATE_KEY].append(update)
             return current
